@@ -941,7 +941,9 @@ class SpecGen:
         src = None
         files = {}
         if has_src:
-            name = f"src_{self.n}_{bi}"
+            # half of the sources live at one of a few recurring paths that are rewritten with new content from case to
+            # case (a history of expansions in one process: nothing about a path may be remembered between them)
+            name = f"src_{self.n}_{bi}" if r.random() < 0.5 else f"src_p{r.randrange(3)}_{bi}"
             decl, ft = self.make_source(name, sk, smode, ssize, [k for k in all_keys if k not in sk])
             ext = {"csv": ".csv", "json": ".json", "yaml": r.choice([".yaml", ".yml"]), "ndjson": ".ndjson"}[decl["format"]]
             decl["file"] = name + ext
